@@ -53,10 +53,82 @@ class ImageSampler(object):
             rmtree(img)
 
 
+WIRE_GEN = dict(napps=2, nsides=3, steps=60, use_time=False, restarts=False, names=["x", "y", "ü", "007", " 7"], p_illegal=0.1)
+
+
+def run_wire_job(job, acc):
+    """Real process, real disk, real TCP, under strace: syscall-order rules (C09) and harness fidelity."""
+    import shutil as _sh, tempfile
+    from .. import wire, diff
+    if not _sh.which("strace"):
+        acc.errors.append("strace not available")
+        return
+    s = job["seed"]
+    cfg = cfg_for(s)
+    hist = generate(s, **WIRE_GEN)
+    wd = tempfile.mkdtemp(prefix="verif-wire-", dir="/tmp")     # the real disk on purpose (fdatasync is real there)
+    log = os.path.join(wd, "strace.log")
+    try:
+        srv = wire.WireServer(wd, cfg, strace_log=log, seed=s)
+        try:
+            out = wire.run_wire(hist, srv)
+        finally:
+            srv.stop()
+        problems, stats = wire.check_strace_log(log, wd)
+        acc.ev["c09_wire_history"] += 1
+        acc.ev["c09_syscall_tcp_writes_checked"] += stats["tcp_writes"]
+        acc.ev["c09_syscall_commits_checked"] += stats["commits"]
+        acc.extra["c09_syscall_db_syncs"] += stats["db_syncs"]
+        acc.extra["c09_syscall_journal_syncs"] += stats["journal_syncs"]
+        if stats["commits"] == 0 or stats["tcp_writes"] == 0:
+            acc.errors.append("strace log shows no commits / no TCP writes (wire:%d)" % s)
+        if problems:
+            acc.add_violation({"property": "C09", "kind": "wire", "case": "wire:%d" % s, "cfg": cfg.to_json(), "seed": s, "history": hist,
+                               "violation": {"props": ["C09"], "kind": "syscall order of the real server process violates commit-before-send / sync-before-commit",
+                                             "detail": {"problems": problems[:4], "stats": stats}, "step": None}})
+        # fidelity: the in-process recording must equal what a real client received
+        ex = Exec(cfg, seed=s, track=False)
+        try:
+            ex.start()
+            rec = diff.record(ex, hist)
+        finally:
+            ex.close()
+
+        def canon_run(steps):
+            can = diff.Canon()
+            nn = [0]
+            res = []
+            for fr in steps:
+                for c in sorted(fr):
+                    for f in fr[c]:
+                        if f.get("type") == "claimed":
+                            can.learn(f.get("mailbox"))
+                res.append({c: can.apply(fr[c]) for c in sorted(fr)})
+            return res
+        inproc = []
+        for r in rec.steps:
+            d = {}
+            for c, f in r["frames"]:
+                d.setdefault(c, []).append(wire.strip(f))
+            inproc.append(d)
+        a, b = canon_run(out), canon_run(inproc)
+        acc.ev["c09_wire_fidelity_steps"] += len(a)
+        dd = diff.first_difference(a, b)
+        if dd:
+            acc.extra["harness_infidelity"] += 1
+            acc.errors.append("harness infidelity (wire:%d): %s" % (s, dd[:300]))
+        acc.cases += 1
+        acc.distinct.add("wire:%d" % s)
+    finally:
+        _sh.rmtree(wd, ignore_errors=True)
+
+
 def jobs(pid, tier, seed):
     out = []
     for name, params in scenarios.directed_for(pid, tier):
         out.append({"kind": "directed", "name": name, "params": params})
+    nw = 24 if tier == "quick" else 600
+    out += [{"kind": "wire", "seed": seed * 1000003 + 900000 + i} for i in range(nw)]
     n = 2500 if tier == "quick" else 50000
     out += [{"kind": "random", "seed": seed * 1000003 + i} for i in range(n)]
     return out
@@ -67,6 +139,8 @@ def run_job(pid, job, acc):
 
     def pre(ex):
         ex.world.frame_hooks.append(ImageSampler(acc, every))
+    if job["kind"] == "wire":
+        return run_wire_job(job, acc)
     if job["kind"] == "random":
         s = job["seed"]
         hist = generate(s, **GEN)
@@ -78,4 +152,8 @@ def run_job(pid, job, acc):
 
 
 def replay(pid, rep):
+    if rep.get("kind") == "wire":
+        acc = Acc(pid)
+        run_wire_job({"seed": rep["seed"]}, acc)
+        return acc
     return replay_history(rep, pid)
